@@ -97,6 +97,18 @@ def FragsRel : Prop :=
       (∀ rt, condApplies c.schema (some tc') rt = condApplies c.schema (some tc) rt) ∧
       ∀ rt, RT c vars' rt sel sel'
 
+/-- the normaliser's case: the SAME fragment table, whose bodies only mention variables on which the maps agree -/
+theorem fragsRel_same (h : ∀ n tc sel, c.frag? n = some (tc, sel) → ∀ v ∈ setVars sel, Ag c.vars vars' v) :
+    FragsRel c vars' c.frags := by
+  intro n
+  have hsame : (ctx' c vars' c.frags).frag? n = c.frag? n := rfl
+  cases hf : c.frag? n with
+  | none => exact Or.inl ⟨rfl, by rw [hsame, hf]⟩
+  | some p =>
+    obtain ⟨tc, sel⟩ := p
+    exact Or.inr ⟨tc, sel, tc, sel, rfl, by rw [hsame, hf], fun _ => rfl,
+      fun rt => RSet_refl c.schema c.vars vars' sel rt (h n tc sel hf)⟩
+
 abbrev Expand := String → Groups × List String → Groups × List String
 
 /-- two expanders that preserve the group relation and agree on the visited set -/
@@ -199,9 +211,9 @@ theorem collect_sim (hf : FragsRel c vars' frags') (hlen : frags'.length = c.fra
   have : (ctx' c vars' frags').fragFuel = c.fragFuel := by
     simp only [Ctx.fragFuel, ctx', hlen]
   rw [this]
-  exact collectSet_sim c vars' rt _ _ (expandSpread_sim c vars' hf rt c.fragFuel) x x' g g' vis hr hg
+  exact collectSet_sim c vars' frags' rt _ _ (expandSpread_sim c vars' frags' hf rt c.fragFuel) x x' g g' vis hr hg
 
-theorem collectMerged_sim (hf : FragsRel c vars' frags') (ot : String) : ∀ (nodes nodes' : List FieldNode),
+theorem collectMerged_sim (hf : FragsRel c vars' frags') (hlen : frags'.length = c.frags.length) (ot : String) : ∀ (nodes nodes' : List FieldNode),
     All2 (fun n n' => RO c vars' ot n.sel n'.sel) nodes nodes' →
     GRel c vars' ot (collectMerged c ot nodes) (collectMerged (ctx' c vars' frags') ot nodes') := by
   intro nodes nodes' h
@@ -237,7 +249,7 @@ theorem collectMerged_sim (hf : FragsRel c vars' frags') (ot : String) : ∀ (no
           obtain ⟨sel', hs', hrel⟩ := hn
           rw [hs']
           simp only []
-          obtain ⟨h1, h2⟩ := collect_sim c vars' hf ot sel sel' g g' vis hrel hg
+          obtain ⟨h1, h2⟩ := collect_sim c vars' frags' hf hlen ot sel sel' g g' vis hrel hg
           have e1 : collect c ot sel (g, vis) = ((collect c ot sel (g, vis)).1, (collect c ot sel (g, vis)).2) := rfl
           have e2 : collect (ctx' c vars' frags') ot sel' (g', vis) =
               ((collect (ctx' c vars' frags') ot sel' (g', vis)).1, (collect c ot sel (g, vis)).2) := by rw [← h2]
@@ -287,7 +299,7 @@ theorem subRel_of_nodeRel {rt : String} {fd : FieldDefS} : ∀ {nodes nodes' : L
     SubRel c vars' fd.type.namedName nodes nodes'
   | [], [], _, _ => trivial
   | n :: ns, n' :: ns', h, hfd => by
-    refine ⟨fun T hT => (h.1.2.2.2 fd (hfd n List.mem_cons_self)).2 T hT, ?_⟩
+    refine ⟨fun T hT => (h.1.2.2 fd (hfd n List.mem_cons_self)).2 T hT, ?_⟩
     exact subRel_of_nodeRel h.2 (fun m hm => hfd m (List.mem_cons_of_mem _ hm))
   | [], _ :: _, h, _ => by cases h
   | _ :: _, [], h, _ => by cases h
@@ -433,7 +445,7 @@ end Unfold
 /-! ## the simulation -/
 
 section Sim2
-variable (c : Ctx) (vars' : Vars)
+variable (c : Ctx) (vars' : Vars) (frags' : List (String × Definition))
 
 def fieldArgs (c : Ctx) (fd : FieldDefS) (nodes : List FieldNode) : List (String × JVal) :=
   match nodes.head? with
@@ -486,7 +498,7 @@ theorem isObject_of_abstract {s : Schema} {n : String} (h : s.isAbstract n = tru
   | none => simp [hf] at h
   | some td => cases td <;> simp [hf] at h ⊢
 
-theorem sim_step (hf : FragsRel c vars' frags') (fuel : Nat) (ih : SimAt c vars' fuel) : SimAt c vars' (fuel + 1) := by
+theorem sim_step (hf : FragsRel c vars' frags') (hlen : frags'.length = c.frags.length) (fuel : Nat) (ih : SimAt c vars' frags' fuel) : SimAt c vars' frags' (fuel + 1) := by
   obtain ⟨ihG, ihF, ihC, ihI⟩ := ih
   have hschema : (ctx' c vars' frags').schema = c.schema := rfl
   have hworld : (ctx' c vars' frags').world = c.world := rfl
@@ -535,7 +547,7 @@ theorem sim_step (hf : FragsRel c vars' frags') (fuel : Nat) (ih : SimAt c vars'
       rcases all2_head hnodes with ⟨h1, h2⟩ | ⟨h, h', h1, h2, hrel⟩
       · rw [h1, h2]
       · rw [h1, h2]
-        exact (hrel.2.2.2 fd (hhead h h1)).1
+        exact (hrel.2.2 fd (hhead h h1)).1
     have hlog : logSt (ctx' c vars' frags') dfr rt src p fd nodes' st = logSt c dfr rt src p fd nodes st := by
       unfold logSt
       rw [hargs, All2.length_eq hnodes]
@@ -594,7 +606,7 @@ theorem sim_step (hf : FragsRel c vars' frags') (fuel : Nat) (ih : SimAt c vars'
                 · simp only [hposs, Bool.false_eq_true, if_false]
                   have hot : c.schema.isObject n = true → ot = n := by
                     intro ho; rw [isObject_of_abstract hab] at ho; cases ho
-                  have hgr := collectMerged_sim c vars' hf ot nodes nodes' (subRel_at c vars' hot hsr)
+                  have hgr := collectMerged_sim c vars' frags' hf hlen ot nodes nodes' (subRel_at c vars' hot hsr)
                   have hpo : c.schema.isObject ot = true ∧ c.schema.isPossibleType n ot = true := by
                     simpa using hposs
                   rw [ihG dfr ot v p _ _ [] st hgr (hsub ot hot (fun _ => hpo))]
@@ -605,7 +617,7 @@ theorem sim_step (hf : FragsRel c vars' frags') (fuel : Nat) (ih : SimAt c vars'
                 · simp only [hito, if_true]
                 · simp only [hito, Bool.false_eq_true, if_false]
                   have hot : c.schema.isObject n = true → n = n := fun _ => rfl
-                  have hgr := collectMerged_sim c vars' hf n nodes nodes' (subRel_at c vars' hot hsr)
+                  have hgr := collectMerged_sim c vars' frags' hf hlen n nodes nodes' (subRel_at c vars' hot hsr)
                   rw [ihG dfr n v p _ _ [] st hgr (hsub n hot (fun ha => absurd (show c.schema.isAbstract n = true from ha) hab))]
               · simp only [hob, Bool.false_eq_true, if_false]
     · -- thunk / badFunc
@@ -635,7 +647,7 @@ theorem sim_step (hf : FragsRel c vars' frags') (fuel : Nat) (ih : SimAt c vars'
           exact ihI dfr item rt fname nodes nodes' p xs (i + 1) _ st1 hsr hsub
       | fuelOut => rfl
 
-theorem sim_zero : SimAt c vars' 0 := by
+theorem sim_zero : SimAt c vars' frags' 0 := by
   refine ⟨?_, ?_, ?_, ?_⟩
   · intro dfr rt src path g g' acc st _ _; rw [execGroups_zero, execGroups_zero]
   · intro dfr rt src p fd nodes nodes' st _ _ _ _; rw [execField_zero, execField_zero]
@@ -643,10 +655,64 @@ theorem sim_zero : SimAt c vars' 0 := by
   · intro dfr item rt fname nodes nodes' p xs i acc st _ _; rw [completeItems_zero, completeItems_zero]
 
 /-- **the simulation**: for every fuel -/
-theorem sim_all (hf : FragsRel c vars' frags') : ∀ fuel, SimAt c vars' fuel
-  | 0 => sim_zero c vars'
-  | fuel + 1 => sim_step c vars' hf fuel (sim_all hf fuel)
+theorem sim_all (hf : FragsRel c vars' frags') (hlen : frags'.length = c.frags.length) : ∀ fuel, SimAt c vars' frags' fuel
+  | 0 => sim_zero c vars' frags'
+  | fuel + 1 => sim_step c vars' frags' hf hlen fuel (sim_all hf hlen fuel)
 
 end Sim2
+
+/-! ## hereditary uniformity transfers along related groups -/
+
+section Transfer
+variable (c : Ctx) (vars' : Vars) (frags' : List (String × Definition))
+
+theorem All2.mem_right {α β : Type} {R : α → β → Prop} : ∀ {as : List α} {bs : List β}, All2 R as bs →
+    ∀ b ∈ bs, ∃ a ∈ as, R a b
+  | [], [], _, b, hb => by cases hb
+  | a :: as, b0 :: bs, h, b, hb => by
+    rcases List.mem_cons.mp hb with rfl | hb'
+    · exact ⟨a, List.mem_cons_self, h.1⟩
+    · obtain ⟨a', ha', hr⟩ := All2.mem_right h.2 b hb'
+      exact ⟨a', List.mem_cons_of_mem _ ha', hr⟩
+  | [], _ :: _, h, _, _ => by cases h
+  | _ :: _, [], h, _, _ => by cases h
+
+theorem HU_transfer (hf : FragsRel c vars' frags') (hlen : frags'.length = c.frags.length) :
+    ∀ (k : Nat) (rt : String) (g g' : Groups), GRel c vars' rt g g' → HUAll c rt g →
+      HU (ctx' c vars' frags') k rt g'
+  | 0, _, _, _, _, _ => trivial
+  | k + 1, rt, g, g', hg, hu => by
+    intro p' hp'
+    obtain ⟨p, hp, hkey, hnodes⟩ := All2.mem_right hg p' hp'
+    have hU : Uniform p.2 := ((hu 1) p hp).1
+    have hschema : (ctx' c vars' frags').schema = c.schema := rfl
+    refine ⟨?_, ?_⟩
+    · -- names: pairwise equal to the original group's
+      intro h' hh' n' hn'
+      obtain ⟨n, hn, hrel⟩ := All2.mem_right hnodes n' hn'
+      rcases all2_head hnodes with ⟨_, h2⟩ | ⟨h, h0', h1, h2, hrelh⟩
+      · rw [h2] at hh'; cases hh'
+      · rw [h2] at hh'; cases hh'
+        rw [hrel.2.1, hrelh.2.1]
+        exact hU h h1 n hn
+    · intro h' fd hh' hfd ot hot hab
+      rw [hschema] at hfd hot hab
+      rcases all2_head hnodes with ⟨_, h2⟩ | ⟨h, h0', h1, h2, hrelh⟩
+      · rw [h2] at hh'; cases hh'
+      · rw [h2] at hh'; cases hh'
+        rw [hrelh.2.1] at hfd
+        have hall : ∀ n ∈ p.2, fieldDef? c.schema rt n.name = some fd := by
+          intro n hn; rw [hU h h1 n hn]; exact hfd
+        have hsr := subRel_of_nodeRel c vars' hnodes hall
+        have hgr := collectMerged_sim c vars' frags' hf hlen ot p.2 p'.2 (subRel_at c vars' hot hsr)
+        exact HU_transfer hf hlen k ot _ _ hgr
+          (fun j => ((hu (j + 1)) p hp).2 h fd h1 hfd ot hot hab)
+
+/-- related groups inherit hereditary uniformity -/
+theorem HUAll_transfer (hf : FragsRel c vars' frags') (hlen : frags'.length = c.frags.length) (rt : String) (g g' : Groups)
+    (hg : GRel c vars' rt g g') (hu : HUAll c rt g) : HUAll (ctx' c vars' frags') rt g' :=
+  fun k => HU_transfer c vars' frags' hf hlen k rt g g' hg hu
+
+end Transfer
 
 end GqlModel.Normalize
